@@ -177,6 +177,22 @@ func countNumSitesExpr(te ast.Expr, types map[string]*codecType, depth int) int 
 	return 0
 }
 
+func hasStringSite(ct *codecType, types map[string]*codecType, depth int) bool {
+	if depth > 3 {
+		return false
+	}
+	for _, f := range ct.Fields {
+		ts := strings.TrimPrefix(strings.TrimPrefix(exprStr(f.Type), "[]"), "*")
+		if ts == "string" {
+			return true
+		}
+		if dep, ok := types[ts]; ok && hasStringSite(dep, types, depth+1) {
+			return true
+		}
+	}
+	return false
+}
+
 func hasNested(ct *codecType, types map[string]*codecType) bool {
 	for _, f := range ct.Fields {
 		base := strings.TrimPrefix(strings.TrimPrefix(exprStr(f.Type), "[]"), "*")
@@ -270,7 +286,10 @@ func genValue(sb *strings.Builder, lhs, name string, te ast.Expr, types map[stri
 func genEq(sb *strings.Builder, a, b string, te ast.Expr, types map[string]*codecType, ind string) bool {
 	ts := exprStr(te)
 	switch ts {
-	case "uint64", "uint32", "int64", "int32", "uint", "int", "bool", "string":
+	case "string":
+		fmt.Fprintf(sb, "%sif !zzStrEq(%s, %s) {\n%s\treturn false\n%s}\n", ind, a, b, ind, ind)
+		return true
+	case "uint64", "uint32", "int64", "int32", "uint", "int", "bool":
 		fmt.Fprintf(sb, "%sif %s != %s {\n%s\treturn false\n%s}\n", ind, a, b, ind, ind)
 		return true
 	case "[]byte", "codec.Hex", "codec.Lisk32", "Hex", "Lisk32":
@@ -381,12 +400,36 @@ func zzGenI64(t *zzT, name string) int64 {
 	return v
 }
 
+// Strings: symbolic ASCII of pattern-chosen length, except that the first string site of a run takes
+// a concrete Unicode corner case when zzUniPat > 0 (precomposed, decomposed-composable (not NFC),
+// NFC-normal text containing a "maybe" quick-check mark, a composition exclusion, Hangul). The NFC
+// functions are evaluated for real on concrete strings, so these exercise the real normalisation
+// rules that the symbolic ASCII contract cannot reach.
+var zzUniPat, zzStrSite int
+var zzUniSamples = []string{"\u00e9", "e\u0301", "q\u0307", "\u0915\u093c", "\ud55c"}
+
 func zzGenASCII(t *zzT, name string) string {
+	site := zzStrSite
+	zzStrSite++
+	if zzUniPat > 0 && site == 0 {
+		return zzUniSamples[zzUniPat-1]
+	}
 	b := zzGenBytes(t, name)
 	for _, c := range b {
 		t.Assume(c < 0x80)
 	}
 	return string(b)
+}
+
+// zzStrEq: the property compares strings in NFC form.
+func zzStrEq(a, b string) bool {
+	if a == b {
+		return true
+	}
+	if zzUniPat > 0 {
+		return zznorm.NFC.String(a) == zznorm.NFC.String(b)
+	}
+	return false
 }
 
 func zzBytesEq(a, b []byte) bool { return zzbytes.Equal(a, b) }
@@ -467,6 +510,14 @@ func zzGenBuf(t *zzT, name string, maxN int) []byte {
 			} else {
 				fmt.Fprintf(sb, "\tzzPat, zzSite = t.Choice(\"pattern\", %d), 0\n", 2*sites+3)
 			}
+			if hasStringSite(ct, types, 0) && countSites(ct, types, 0) <= 6 {
+				fmt.Fprintf(sb, "\tzzUniPat, zzStrSite = t.Choice(\"unicode\", %d), 0\n", 6)
+			} else if hasStringSite(ct, types, 0) {
+				// large types: only the NFC-normal "maybe" sample besides symbolic ASCII
+				sb.WriteString("\tzzUniPat, zzStrSite = 3*t.Choice(\"unicode\", 2), 0\n")
+			} else {
+				sb.WriteString("\tzzUniPat, zzStrSite = 0, 0\n")
+			}
 			nsites := countNumSites(ct, types, 0)
 			if nsites <= 1 {
 				sb.WriteString("\tzzNPat, zzNSite = -1, 0\n")
@@ -500,7 +551,7 @@ func zzGenBuf(t *zzT, name string, maxN int) []byte {
 		os.MkdirAll(dir, 0o755)
 		fp := filepath.Join(dir, "zz_verif_gen_codec.go")
 		src := sb.String()
-		imps := "import zzbytes \"bytes\"\n"
+		imps := "import zzbytes \"bytes\"\nimport zznorm \"golang.org/x/text/unicode/norm\"\n"
 		if pkg != "codec" && (strings.Contains(src, "codec.Hex") || strings.Contains(src, "codec.Lisk32")) {
 			imps += "import \"github.com/LiskHQ/lisk-engine/pkg/codec\"\n"
 		}
